@@ -40,7 +40,11 @@ RULE = ("(c) every type of the Lean-enumerated zoo of depth 0 (27 base types x 4
         "pointer/array variants and a zoo sample, 22 relational traits/concepts + common_type/common_reference/invoke_result "
         "over all ordered pairs of a relation list; (b) all 32 numeric_limits members x 19 arithmetic types x 4 cv; "
         "(a) ratio<n,d> over a small grid and near-overflow values, the four arithmetic aliases and six comparisons over "
-        "all ordered pairs of a small ratio list and seeded near-overflow pairs.  A case is non-trivial when the type is "
+        "all ordered pairs of a small ratio list, seeded near-overflow pairs and six targeted families (common denominator with a "
+        "cancelling numerator, Bezout-type cancellation n1/a - n2/b = 1/(ab) with products near 2^93, large integer parts of "
+        "opposite sign with a fractional carry, completely cancelling products, Fibonacci neighbours for the comparison loop, "
+        "lcm(d1,d2) not representable while the sum is); where model and spec say ill-formed a seeded sample of the "
+        "instantiations (and ratio<n,0>, ratio<INTMAX_MIN,d>) is compiled alone and must be rejected.  A case is non-trivial when the type is "
         "compound / the pair differs / the ratio is not already reduced or an intermediate exceeds 2^31; distinct = distinct "
         "case text.")
 ASSUMPTIONS = ["libstdc++ 12 <type_traits>, <concepts>, <limits>, <ratio> are the reference (R2 validates the Lean spec against them)",
@@ -62,9 +66,14 @@ LEVEL_TEXT = ("Proved in Lean 4 for all inputs: each of 47 structural traits/con
               "pointers, member pointers, references, arrays and qualified function types, and the standard's laws hold "
               "(exactly one primary category, reference collapsing, remove_cvref = remove_cv after remove_reference); the "
               "integer numeric_limits members equal 2^digits-1, -2^digits, and digits*3/10 = floor(digits*log10 2) for every "
-              "width below 103 bits; ratio_less/less_equal/greater/greater_equal equal the exact rational comparison whenever "
-              "the cross products fit intmax_t.  The rest of the ratio model (normalisation to lowest terms, the arithmetic "
-              "aliases beyond their reduction to ratio<n,d>) and make_signed/make_unsigned/underlying_type are modelled and "
+              "width below 103 bits; ratio (after three fix: commits): ratio<n,d> has the members n/d in lowest terms with a "
+              "positive denominator for all admissible template arguments and is ill-formed for the others (zero denominator, "
+              "INTMAX_MIN); ratio_add/subtract/multiply/divide are the canonical specialisation of the exact rational result "
+              "in lowest terms whenever that result is representable in intmax_t - no intermediate of the gcd-first products, "
+              "of detail::ratio_add_impl or of detail::ratio_less_impl overflows - and ill-formed whenever it is not (or the "
+              "divisor is zero); ratio_equal/not_equal/less/less_equal/greater/greater_equal equal the exact comparison of the "
+              "rational numbers for all operands (the continued-fraction loop terminates within den+1 iterations).  "
+              "make_signed/make_unsigned/underlying_type are modelled and "
               "compared on every run but have no full theorem yet (coverage.correspondence_only).  The models are tied to the current "
               "source on every run by a generated compile-time matrix (etl = model, std = spec, etl = spec) over a Lean-"
               "enumerated zoo of 1.5e3 (quick) / 1e4 (thorough) types, all arithmetic types and a ratio grid incl. near-"
@@ -73,11 +82,7 @@ LEVEL_TEXT = ("Proved in Lean 4 for all inputs: each of 47 structural traits/con
 LEVEL_NOTE = ("Trusted: Lean kernel + propext/Classical.choice/Quot.sound; fidelity of the hand model outside the explored "
               "types; g++ 12 front end and intrinsics; libstdc++ as oracle.  Part (d) (coverage.unproved_observed) is "
               "differential testing, not proof.  Floating-point numeric_limits members are compared with std only.")
-CORRESPONDENCE_ONLY = ["ratio<N,D>::num/den/type, ratio_add, ratio_subtract, ratio_multiply, ratio_divide, ratio_equal, "
-                       "ratio_not_equal (model = exact rational spec = std::ratio on the grid; proved only: the four ordering "
-                       "traits equal the exact comparison when the cross products fit, and ratio_add/ratio_multiply reduce "
-                       "to ratio<unreduced n, d> when the intermediates fit (…_partial: `ratio<N,D>` = lowest terms is not proved)",
-                       "make_signed, make_unsigned, underlying_type, add_cv, integer numeric_limits::digits10 of the "
+CORRESPONDENCE_ONLY = [                       "make_signed, make_unsigned, underlying_type, add_cv, integer numeric_limits::digits10 of the "
                        "literal specialisations beyond 8-bit bytes",
                        "numeric_limits<floating-point>::* (compared with std only)",
                        "numeric_limits<integer>: is_specialized, is_integer, is_exact, radix, is_bounded, traps and the "
@@ -93,8 +98,13 @@ UNPROVED_OBSERVED = [
     "regular, equality_comparable, swappable, convertible_to, derived_from, assignable_from, constructible_from, common_with, "
     "common_reference_with, invocable"]
 THEOREMS = {
-    "rn": [], "ra": ["Tetl.C15.Props.ratioLess_eq", "Tetl.C15.Props.ratioAdd_eq_mkRatio_partial",
-                     "Tetl.C15.Props.ratioMul_eq_mkRatio_partial", "Tetl.C15.Props.ratioAdd_overflow_counterexample"],
+    "rn": ["Tetl.C15.Props.mkRatio_eq", "Tetl.C15.Props.mkRatio_illformed", "Tetl.C15.Props.mkRatio_valid",
+           "Tetl.C15.Props.reduce_lowest_terms", "Tetl.C15.Props.ratioType_canonical"],
+    "ra": ["Tetl.C15.Props.ratioAdd_eq", "Tetl.C15.Props.ratioAdd_illformed", "Tetl.C15.Props.ratioSub_eq",
+           "Tetl.C15.Props.ratioSub_illformed", "Tetl.C15.Props.ratioMul_eq", "Tetl.C15.Props.ratioMul_illformed",
+           "Tetl.C15.Props.ratioDiv_eq", "Tetl.C15.Props.ratioDiv_illformed", "Tetl.C15.Props.ratioEqual_eq",
+           "Tetl.C15.Props.ratioNotEqual_eq", "Tetl.C15.Props.ratioLess_eq", "Tetl.C15.Props.ratioLessEqual_eq",
+           "Tetl.C15.Props.ratioGreater_eq", "Tetl.C15.Props.ratioGreaterEqual_eq"],
     "lim": ["Tetl.C15.Props.intLimits_eq", "Tetl.C15.Props.intLimits_char_eq", "Tetl.C15.Props.intLimits_bool_char8",
             "Tetl.C15.Props.digits10_eq_floor_log", "Tetl.C15.Props.digits10_eq_spec"],
     "ut": ["Tetl.C15.Props.exactly_one_primary_category", "Tetl.C15.Props.isFunction_eq", "Tetl.C15.Props.removeCv_eq",
@@ -245,8 +255,26 @@ def generate(tier, seed):
     M = 2 ** 63 - 1
     import math
     for _ in range(60 if not thorough else 900):
-        k = rnd.randrange(5)
-        if k == 0:        # common denominator g with a cancelling numerator: n1/g + n2/g, g2 = gcd(n1+n2, g) > 1
+        k = rnd.randrange(6)
+        if k == 5:        # lcm(d1, d2) is not representable, the sum is: only the factor p of gcd(d1, d2) cancels
+            a, b = rnd.choice([(2, 3), (3, 2), (3, 4), (5, 2), (2, 7), (3, 5)])
+            p_ = rnd.choice([5, 7, 11, 13, 25, 49, 121]) if (a * b) % 5 else rnd.choice([7, 11, 13, 49, 121])
+            if math.gcd(p_, a * b) != 1:
+                continue
+            e = 1
+            while p_ * 2 ** (e + 1) * max(a, b) <= M:
+                e += 1
+            g = p_ * 2 ** e                                   # g max(a, b) <= M < 2 g max(a, b) <= g a b
+            d1, d2 = g * a, g * b
+            n1 = rnd.choice([1, 3, 9, 17, 19, 23, 27, 29, 31, 37, 41, 43, 47, 53])
+            n1 *= rnd.choice([1, -1])
+            if math.gcd(n1, d1) != 1:
+                continue
+            n2 = next((t for t in range(1, 4 * p_ * 30, 2) if (n1 * b + t * a) % p_ == 0 and math.gcd(t, d2) == 1), None)
+            if n2 is None:
+                continue
+            line = (n1, d1, n2, d2)
+        elif k == 0:      # common denominator g with a cancelling numerator: n1/g + n2/g, g2 = gcd(n1+n2, g) > 1
             g = rnd.choice([2 ** 62, 2 ** 61 * 3, 10 ** 18, 6 * 10 ** 17, 2 ** 40 * 3 ** 10])
             n1 = rnd.randrange(1, M) | 1
             n2 = (g * rnd.randrange(1, 4) - n1 % g) % g + g * rnd.randrange(0, 2)
@@ -260,7 +288,8 @@ def generate(tier, seed):
             line = (n1, a, -n2, b)
         elif k == 2:      # large integer parts of opposite sign, small fractional sum with carry
             d1, d2 = rnd.choice([(6, 4), (10, 15), (2 ** 20, 2 ** 21), (3 ** 20, 3 ** 19 * 2), (12, 18)])
-            i = rnd.randrange(2 ** 40, M // max(d1, d2))
+            top = M // max(d1, d2)
+            i = rnd.randrange(min(2 ** 40, top // 2), top)
             line = (i * d1 + rnd.randrange(1, d1), d1, -(i - rnd.randrange(0, 3)) * d2 + rnd.randrange(1, d2), d2)
         elif k == 3:      # products that cancel completely: (p/q) * (q'/p') with shared large factors
             p_, q_ = rnd.choice(BIG), rnd.choice(BIG)
